@@ -230,7 +230,14 @@ class Profile:
                 else:
                     try:
                         if isinstance(self.__dict__[n], bool):
-                            self.__dict__[n] = not (v in ["False", "0"])
+                            if isinstance(v, str):
+                                if v.lower() in ["true", "1"]:
+                                    v = True
+                                elif v.lower() in ["false", "0"]:
+                                    v = False
+                            if not isinstance(v, bool) and v not in [0, 1]:
+                                raise ValueError(v)
+                            self.__dict__[n] = bool(v)
                         else:
                             typ = type(self.__dict__[n])
                             self.__dict__[n] = typ(v)
